@@ -503,6 +503,52 @@ class CParser:
             e = self.expr()
             self.eat('op', ')')
             return e
+        if k == 'op' and v == '[':
+            # lambda: [captures](params) -> type { body }
+            depth = 0
+            while True:
+                kk, vv = self.peek()
+                if kk is None:
+                    raise Untranslatable('C: unterminated lambda capture')
+                self.i += 1
+                depth += {'[': 1, ']': -1}.get(vv, 0) if kk == 'op' else 0
+                if depth == 0:
+                    break
+            params = []
+            if self.at('('):
+                self.i += 1
+                cur = []
+                depth = 1
+                while depth:
+                    kk, vv = self.peek()
+                    if kk is None:
+                        raise Untranslatable('C: unterminated lambda parameters')
+                    self.i += 1
+                    if kk == 'op' and vv == '(':
+                        depth += 1
+                    elif kk == 'op' and vv == ')':
+                        depth -= 1
+                        if depth == 0:
+                            break
+                    if kk == 'op' and vv == ',' and depth == 1:
+                        params.append(cur)
+                        cur = []
+                    else:
+                        cur.append((kk, vv))
+                if cur:
+                    params.append(cur)
+            names = []
+            for prm in params:
+                ids = [vv for kk, vv in prm if kk == 'id']
+                if not ids:
+                    raise Untranslatable('C: lambda parameter without a name')
+                names.append(ids[-1])
+            while not self.at('{'):
+                if self.peek()[0] is None:
+                    raise Untranslatable('C: lambda without a body')
+                self.i += 1       # mutable / noexcept / -> type
+            body = self.stmt()
+            return ('lambda', tuple(names), body[1])
         if k == 'id':
             self.i += 1
             if v in CASTS or (v in TYPE_WORDS and self.at('(')):
@@ -718,7 +764,16 @@ def c_subst0(e, env):
         return e
     if k == 'id':
         return env[e[1]] if e[1] in env else _CONSTS.get(e[1], e)
+    if k == 'lambda':
+        return ('closure', e[1], e[2], tuple(sorted((kk, vv) for kk, vv in env.items() if isinstance(kk, str))))
     if k == 'call':
+        if e[1][0] == 'id' and e[1][1] in env and env[e[1][1]][0] == 'closure':
+            _c, params, body, cenv = env[e[1][1]]
+            args = tuple(c_subst0(a, env) for a in e[2])
+            if len(params) == len(args):
+                inner = dict(cenv)
+                inner.update(zip(params, args))
+                return _tree_expr(CExec().run(list(body), inner))
         return ('call', c_subst0(e[1], env) if e[1][0] != 'id' else e[1], tuple(c_subst0(a, env) for a in e[2]))
     if k == 'idx':
         return ('idx', c_subst0(e[1], env), c_subst0(e[2], env))
@@ -883,6 +938,47 @@ class CExec:
                 return ('loop', s, env, rest)
             raise Untranslatable('C: nested loop')
         raise Untranslatable(f'C: statement {k}')
+
+
+def c_resolve_tern(e, cond, value):
+    """e with every `cond ? a : b` replaced by a (value True) or b (value False)"""
+    if not isinstance(e, tuple) or not e:
+        return e
+    if e[0] == 'tern' and e[1] == cond:
+        return c_resolve_tern(e[2] if value else e[3], cond, value)
+    return tuple(c_resolve_tern(a, cond, value) if isinstance(a, tuple) else a for a in e)
+
+
+def _first_tern(e):
+    if not isinstance(e, tuple) or not e:
+        return None
+    if e[0] == 'tern':
+        return e[1]
+    for a in e:
+        if isinstance(a, tuple):
+            c = _first_tern(a)
+            if c is not None:
+                return c
+    return None
+
+
+def tree_split_selects(t, names, depth=0):
+    """branch-free selects in the values of the variables `names` at the leaves (`x = c ? a : x`) become branches of the tree"""
+    if t[0] == 'if':
+        return ('if', t[1], tree_split_selects(t[2], names, depth), tree_split_selects(t[3], names, depth))
+    if t[0] not in ('fall', 'continue', 'break') or depth > 8:
+        return t
+    env = t[1]
+    for n in names:
+        c = _first_tern(env.get(n)) if n in env else None
+        if c is not None:
+            yes = dict(env)
+            no = dict(env)
+            for k, v in env.items():
+                yes[k] = c_resolve_tern(v, c, True)
+                no[k] = c_resolve_tern(v, c, False)
+            return ('if', c, tree_split_selects((t[0], yes), names, depth + 1), tree_split_selects((t[0], no), names, depth + 1))
+    return t
 
 
 def tree_map_leaves(t, f):
@@ -1089,6 +1185,7 @@ def analyse_next_cut(src):
         if any(repr(env.get(v)) != repr(envs[0].get(v)) for v in relevant):
             raise Untranslatable('next_cut: the scan loop is entered with different local values')
     body_tree = CExec(stop_at_loop=False).run(lbody, dict(envs[0], **{ivar: ('id', '_L_i'), **{w: ('id', '_L_w_' + w) for w in written}}))
+    body_tree = tree_split_selects(body_tree, written)
     body_tree = _norm_tree(body_tree, norm)
     # identify index / value: on the updating leaves index := i and value := key(data, i)
     key_call = None
